@@ -3,6 +3,7 @@ import FairModel.Lemmas.BaseMetrics
 import FairModel.Lemmas.WeightedMean
 import FairModel.Properties.C01
 import FairModel.Model.Fairness
+import FairModel.Lemmas.AggregateCache
 
 /-! Helper lemmas for C03:
   A. on binary {0,1} data the confusion-matrix rates of `BaseMetrics` (as called with
@@ -286,6 +287,16 @@ theorem slice_sub {rows : List (Row Dat)} (k : Key) :
   obtain ⟨r, hr, rfl⟩ := List.mem_map.mp hd
   exact ⟨r, (mem_rowsOf.mp hr).1, rfl⟩
 
+/-- `applyAgg` reads the LIFTED result cache (`Generated/PopulateSrc.lean`: default `errors=` / `method=` of the public
+    accessors, the slot they read, the call `_populate_results` stored there, the lifted `_extract_result`); for a
+    bare-callable frame without control features it is the hard-coded call `applyAggModel` -/
+theorem applyAgg_lifted_eq (k : AggKind) (meth : Method) (withMethod : Bool) (t : Tables) (h : t.ncf = 0) :
+    applyAgg k meth withMethod t = applyAggModel k meth withMethod t := by
+  unfold applyAgg applyAggGot applyAggModel
+  cases k <;> cases withMethod <;>
+    simp [AggCache.groupMinPub_eq, AggCache.groupMaxPub_eq, AggCache.differencePub_eq, AggCache.ratioPub_eq,
+      AggCache.documentedMode, h]
+
 section oneStratum
 variable {f : List Dat → Cell} {g : List Dat → Rat} {nsf : Nat} {rows : List (Row Dat)}
 
@@ -441,7 +452,7 @@ theorem applyAgg_one (hn : 0 < nsf) (hwf : WF 0 nsf rows) (hf : FiniteOn f g row
   have hs := strata_one (f := f) hn hwf hne
   have hns := hasNonscalar_one hn hf hne
   cases k <;> cases m <;>
-    simp [applyAgg, perStratum, difference, ratio, groupMin, groupMax, applyGrouping, hs, hns,
+    simp [applyAgg_lifted_eq _ _ _ _ (rfl : (ofFrame 0 nsf f rows).ncf = 0), applyAggModel, perStratum, difference, ratio, groupMin, groupMax, applyGrouping, hs, hns,
       AggregateSpec.diffBetweenSubtrahend, AggregateSpec.ratioBetweenNum, AggregateSpec.ratioBetweenDen,
       Grouping.apply]
 
